@@ -3,7 +3,7 @@
 usage: seed_meta.py <Cxx> "<caught_by note>" """
 import json, sys, os, re, glob
 pid = sys.argv[1]; note = sys.argv[2] if len(sys.argv) > 2 else ""
-d = f'/verif/seeded/{pid}'
+d = f'/verif/seeded/{pid}'  # pid may be 'Cxx' or 'Cxx-2' (second seeding round)
 agent = {}
 try: agent = json.load(open(f'{d}/meta.agent.json'))
 except Exception: pass
@@ -20,7 +20,7 @@ try:
     ver = [l for l in lines if l.startswith('test result') or 'Summary' in l]
 except Exception: ver = []
 meta = {
- "property": pid,
+ "property": pid.split("-")[0],
  "title": agent.get("title"),
  "breaks": agent.get("what_breaks"),
  "needs_to_manifest": agent.get("needs_to_manifest"),
